@@ -208,6 +208,10 @@ def view_rules(ctx, w, S, R, T):
     ctx.rule("D4", "command handlers address the line vector only relative to the view (index >= len - rows); absolute indices are confined to construction, resize and the trim")
     exempt = set(E.reachable_fns([S.buffer_resize_fn])) | {T.trim_fn, T.buf_gc, S.buffer_ctor}
     n = 0
+    from rules import c06 as _c06, prims as _pr
+    _up, _down = _c06.scroll_prims(w, S)
+    scroll_fns = {f for f in (_up, _down) if f}
+    scroll_sem = _pr.scroll_ok(w, S)
     handler_reach = E.reachable_fns([w.anchors["execute"]])
     for fn in sorted(w.bodies):
         if S._impl_of(fn) != S.buffer_ty and not fn.startswith("<" + S.buffer_ty + " as "):
@@ -226,6 +230,8 @@ def view_rules(ctx, w, S, R, T):
                 continue
             n += 1
             ok = idx is not None and view_relative(idx, S)
+            if not ok and fn in scroll_fns and scroll_sem:
+                ok = True             # inside the scroll primitives the specification (rows above the view untouched, for every geometry) decides it
             ctx.check(ok, "D4", "%s:%s" % (fn, shared.site_key(w, fn, cs.point)),
                       "%s accesses the line vector with %s(%s), which is not relative to the view (len - rows + k): rows that already scrolled off can be altered, or the result depends on how much scrollback happens to be retained"
                       % (fn, name, w.tstr(fn, idx) if idx is not None else ""), loc=w.site_loc(cs), sample={"fn": fn, "op": name, "index": w.tstr(fn, idx) if idx is not None else None})
